@@ -654,7 +654,7 @@ func runConnHistory(t *testing.T, tr string, limit, eplimit int64, lines []cline
 				synctest.Wait()
 				w.scan()
 				if ids := w.inflightIDs(); len(ids) != 1 || ids[0] != 900 {
-					probe = fmt.Sprintf("blocked:%v", ids)
+					probe = "blocked:" + joinInts(ids)
 				} else {
 					w.apply(cevent{kind: "respond", id: 900})
 					synctest.Wait()
